@@ -12,3 +12,5 @@ import MainlineModel.Model.Tokens
 import MainlineModel.Model.Messages
 import MainlineModel.Model.Server
 import MainlineModel.Model.Api
+import MainlineModel.Model.Bencode
+import MainlineModel.Model.Krpc
